@@ -11,13 +11,18 @@ import (
 )
 
 // C05 race tier: dispatches racing with membership changes made from other threads.
-// Three threads - dispatcher (requests through the proxy), remover, adder - on 2-3 backends, all
+// Three threads - dispatcher (requests through the proxy), remover, adder (or two removers) - on 2-3 backends, all
 // interleavings within the deviation bound, under the race detector.
 
 func c05SchedExec(scenario string, prefix []int) SchedResult {
 	nInit := 2
-	if scenario == "three-backends" {
+	if scenario == "three-backends" || scenario == "two-removers" {
 		nInit = 3
+	}
+	removed, added := []int{0}, []int{4}
+	if scenario == "two-removers" {
+		// two membership changes from different threads overlap (two host names re-resolved in one cycle)
+		removed, added = []int{0, 1}, nil
 	}
 	w := c05Start("udp", 5)
 	defer w.s.Close()
@@ -35,20 +40,29 @@ func c05SchedExec(scenario string, prefix []int) SchedResult {
 		w.ua.Send("127.0.0.1:5060", m.Render())
 	}
 	// remover and adder: other threads calling the real membership API
-	vrt.Go(func() { rr.RemoveBackend(c05Addr(0)) })
-	vrt.Go(func() {
-		b, err := NewUDPBackend(":0", c05Addr(4))
-		if err == nil {
-			rr.AddBackend(b)
-		}
-	})
+	for _, r := range removed {
+		a := c05Addr(r)
+		vrt.Go(func() { rr.RemoveBackend(a) })
+	}
+	for _, x := range added {
+		a := c05Addr(x)
+		vrt.Go(func() {
+			b, err := NewUDPBackend(":0", a)
+			if err == nil {
+				rr.AddBackend(b)
+			}
+		})
+	}
 	w.s.Run()
 	res := SchedResult{Trace: w.s.W.TraceCopy()}
 	if vd := w.s.Verdict(); vd != "" {
 		res.Clause, res.Detail = "health", vd+"\n"+w.s.CrashDetail()
 		return res
 	}
-	ever := map[string]bool{c05Addr(4): true}
+	ever := map[string]bool{}
+	for _, x := range added {
+		ever[c05Addr(x)] = true
+	}
 	for i := 0; i < nInit; i++ {
 		ever[c05Addr(i)] = true
 	}
@@ -75,16 +89,22 @@ func c05SchedExec(scenario string, prefix []int) SchedResult {
 		oc = append(oc, fmt.Sprint(to))
 	}
 	// afterwards (stable period): the rotation serves exactly the final membership
-	final := map[string]bool{c05Addr(4): true}
-	for i := 1; i < nInit; i++ {
+	final := map[string]bool{}
+	for _, x := range added {
+		final[c05Addr(x)] = true
+	}
+	for i := 0; i < nInit; i++ {
 		final[c05Addr(i)] = true
+	}
+	for _, r := range removed {
+		delete(final, c05Addr(r))
 	}
 	k := len(final)
 	var seq []string
 	for i := 0; i < 2*k; i++ {
 		to := w.dispatch()
 		if len(to) != 1 || !final[to[0]] {
-			res.Clause, res.Detail = "final-membership", fmt.Sprintf("after remove(%s) and add(%s) a dispatch went to %v; registered now: %v", c05Addr(0), c05Addr(4), to, keysOf(final))
+			res.Clause, res.Detail = "final-membership", fmt.Sprintf("after the concurrent changes (removed %v, added %v of the address universe) a dispatch went to %v; registered now: %v", removed, added, to, keysOf(final))
 			return res
 		}
 		seq = append(seq, to[0])
@@ -111,6 +131,7 @@ func c05RaceRun(c *Ctx) {
 	}
 	ExploreSchedules(c, "two-backends", b, func(p []int) SchedResult { return c05SchedExec("two-backends", p) })
 	ExploreSchedules(c, "three-backends", 2, func(p []int) SchedResult { return c05SchedExec("three-backends", p) })
+	ExploreSchedules(c, "two-removers", 2, func(p []int) SchedResult { return c05SchedExec("two-removers", p) })
 }
 
 func init() {
